@@ -8,6 +8,7 @@
 #include <memory>
 #include "c11_model.h"
 #include "c11_pipeline.h"
+#include "c11_guard.h"
 
 namespace c11 {
 namespace rp = Gudhi::ripser;
@@ -320,6 +321,7 @@ template <class T, class Form> void finish_case(Ctx<T>& x, const Input& in) {
 // n <= 10, every generator, every threshold class, dim_max 0..n-2, every prime
 template <class T, class Form> void small_case(vh::Case& c) {
   vh::Rng& r = c.rng;
+  CaseGuard guard;
   Ctx<T> x{c};
   x.form = Form::name(); x.cfgkind = "small";
   int n = 2 + (int)r.below(9);
@@ -362,6 +364,7 @@ template <class T, class Form> void small_case(vh::Case& c) {
 // limits of the dispatcher; includes the projective-plane inputs on which Z_2 and odd primes disagree
 template <class T, class Form> void big_case(vh::Case& c) {
   vh::Rng& r = c.rng;
+  CaseGuard guard;
   Ctx<T> x{c};
   x.form = Form::name(); x.cfgkind = "big";
   BigInput b;
